@@ -492,7 +492,14 @@ func (a *appGenerator) makeCodegenApp() (GenApp, error) {
 		basePath = sw.BasePath
 	}
 
-	jsonb, _ := json.MarshalIndent(a.SpecDoc.OrigSpec(), "", "  ")
+	origSpec := a.SpecDoc.OrigSpec()
+	// OrigSpec() is a gob clone of the loaded document, and gob drops pointers to zero values:
+	// "minimum: 0", "maxLength: 0", "minItems: 0"... vanish from it. Re-read it from the raw document.
+	var fromRaw spec.Swagger
+	if raw := a.SpecDoc.Raw(); len(raw) > 0 && json.Unmarshal(raw, &fromRaw) == nil {
+		origSpec = &fromRaw
+	}
+	jsonb, _ := json.MarshalIndent(origSpec, "", "  ")
 	flatjsonb, _ := json.MarshalIndent(a.SpecDoc.Spec(), "", "  ")
 
 	return GenApp{
